@@ -52,7 +52,10 @@ def cases(tier, seed, args):
     # classes that are extremely tight (perturbation 1e-7 .. 1e-9 of the prototype scale) - Gaussian models
     for i in range(6 if q else 36):
         out.append(dict(t='fp', kind=['gmm', 'gcacgmm', 'gmm'][i % 3], K=2 + i % 3, D=4, F=1 + (i % 3 == 1), iterations=[1, 2, 5][i % 3],
-                        blur=float([0.0, 0.2][i % 2]), noise=[1e-8, 3e-8, 1e-7, 1e-9][(i // 2) % 4], seed=int(rng.integers(1 << 30)), gains=False,
+                        # (a blurred start puts between-class scatter of order one next to the class's own 1e-18: beyond 1e-8 the
+                        # condition number of the first covariance exceeds 1 / eps and the Cholesky guard rejects it)
+                        blur=float([0.0, 0.2][i % 2]) if [1e-8, 3e-8, 1e-7, 1e-9][(i // 2) % 4] >= 1e-8 else 0.0,
+                        noise=[1e-8, 3e-8, 1e-7, 1e-9][(i // 2) % 4], seed=int(rng.integers(1 << 30)), gains=False,
                         gainmode='mixed', E=4))
     # the true partition handed over as a boolean / integer one-hot mask
     for i in range(7 if q else 42):
